@@ -47,7 +47,7 @@ def judge(case, part):
     m = harness.modules()
     errors = m["errors"]
     fmt = case["format"]
-    rows = [["D", "Format", fmt]] + [["D", n, v] for n, v in case["props"]] + [field_row(fmt)]
+    rows = [["D", "Format", fmt]] + [["D"] + list(prop) for prop in case["props"]] + [field_row(fmt)]
     part.evaluations += 1
     part.transitions += 1
     expect = case["expect"]
@@ -70,6 +70,22 @@ def judge(case, part):
         return
     if cid is not None and cid_again is not None and fingerprint(cid.data_format) != fingerprint(cid_again.data_format):
         part.fail(tag % ("data-format-changes-when-loaded-again:" + case.get("what", "")), case, repr(fingerprint(cid.data_format)), repr(fingerprint(cid_again.data_format)))
+        return
+    if case.get("same_as") is not None:
+        # cells behind the value cell are remarks: verdict and effective data format are those of the rows without them
+        part.validated += 1
+        part.nontrivial += 1
+        plain_rows = [["D", "Format", fmt]] + [["D"] + list(prop) for prop in case["same_as"]] + [field_row(fmt)]
+        try:
+            plain, plain_print = "accept", fingerprint(harness.make_cid(plain_rows).data_format)
+        except errors.InterfaceError:
+            plain, plain_print = "refuse", None
+        except Exception as error:
+            plain, plain_print = "raised-" + type(error).__name__, None
+        if outcome != plain:
+            part.fail(tag % ("%s-but-%s-without-the-remark-cell:%s" % (outcome, plain, case.get("what", ""))), case, plain, [outcome, detail])
+        elif cid is not None and fingerprint(cid.data_format) != plain_print:
+            part.fail(tag % ("data-format-differs-from-the-one-without-the-remark-cell:" + case.get("what", "")), case, repr(plain_print), repr(fingerprint(cid.data_format)))
         return
     if expect != "either":
         part.validated += 1
@@ -124,6 +140,12 @@ def cases_applicability():
                     props = [["Decimal separator", "."], [variant, ","]]
                 attrs = {}
                 cases.append({"group": "applicability", "format": fmt, "props": props, "expect": "accept" if applies else "refuse", "what": name, "attrs": attrs})
+    for name, formats in APPLIES.items():
+        for fmt in formats:
+            for value in ("", " ", VALID_VALUE[name]):
+                for remark in (["a remark"], ["", "5"], [" ", "'"]):
+                    cases.append({"group": "applicability", "format": fmt, "props": [[name.capitalize(), value] + remark], "same_as": [[name.capitalize(), value]], "expect": "either",
+                                  "what": "%s %r with cells behind the value" % (name, value)})
     for fmt in FORMATS:
         for bogus in ("is valid", "is_valid", "format name", "delimiter", "x", "valid line delimiter texts", "quote", "sheets"):
             cases.append({"group": "applicability", "format": fmt, "props": [[bogus, "1"]], "expect": "refuse", "what": "unknown property " + bogus})
@@ -340,7 +362,7 @@ def verdict_of(case):
     """accept / refuse / raised-... for one case, without judging it."""
     m = harness.modules()
     fmt = case["format"]
-    rows = [["D", "Format", fmt]] + [["D", n, v] for n, v in case["props"]] + [field_row(fmt)]
+    rows = [["D", "Format", fmt]] + [["D"] + list(prop) for prop in case["props"]] + [field_row(fmt)]
     try:
         harness.make_cid(rows)
         return "accept"
@@ -383,4 +405,4 @@ def run(ctx):
     ctx.pmap(MOD, "work", engine.chunks(cases, 60), label="C11")
     # in one single process: first every case that need not be refused (those that must be accepted and empty values first), then all cases in reverse order, then all in order: whatever a refused or accepted value leaves
     # behind in module-level tables meets every other case there
-    ctx.pmap(MOD, "work", [sorted((c for c in cases if c["expect"] != "refuse"), key=lambda c: 0 if c["expect"] == "accept" or any(v == "" for _, v in c["props"]) else 1) + list(reversed(cases)) + cases], label="C11 one process")
+    ctx.pmap(MOD, "work", [sorted((c for c in cases if c["expect"] != "refuse"), key=lambda c: 0 if c["expect"] == "accept" or any(p[1] == "" for p in c["props"]) else 1) + list(reversed(cases)) + cases], label="C11 one process")
